@@ -103,7 +103,7 @@ class C14(Profile):
                    'version base classes stix2.v20._STIXBase20 / stix2.v21._STIXBase21 identify the version of an object']
     components = dict(COMPONENTS_COMMON,
                       real=COMPONENTS_COMMON['real'] + ['stix2.parsing', 'stix2.datastore.memory', 'stix2.datastore.filesystem', 'stix2.environment', 'tmpfs'],
-                      simulated=COMPONENTS_COMMON['simulated'] + ['readdir order'])
+                      simulated=COMPONENTS_COMMON['simulated'] + ['readdir order', 'file time stamps (disk-owned clock, plan-chosen granularity)'])
 
     def generate(self, rng, index, tier):
         ops = []
